@@ -1,0 +1,30 @@
+//go:build verif
+
+package common
+
+// Read-only view of a PubkeyCache's object chain for the /verif correspondence harness (property C16).
+// Compiled only with the build tag `verif`; nothing in the regular build refers to it.
+
+// VerifPubkeyCacheLevel describes one cache object: its fork point and the sizes of its own tables.
+type VerifPubkeyCacheLevel struct {
+	TrustedParentCount uint64
+	Idx2Pub            int
+	Pub2Idx            int
+}
+
+// VerifPubkeyCacheShape walks from pc to the root cache (at most max objects) and reports each level.
+func VerifPubkeyCacheShape(pc *PubkeyCache, max int) []VerifPubkeyCacheLevel {
+	var out []VerifPubkeyCacheLevel
+	for pc != nil && len(out) < max {
+		pc.rwLock.RLock()
+		out = append(out, VerifPubkeyCacheLevel{
+			TrustedParentCount: uint64(pc.trustedParentCount),
+			Idx2Pub:            len(pc.idx2pub),
+			Pub2Idx:            len(pc.pub2idx),
+		})
+		parent := pc.parent
+		pc.rwLock.RUnlock()
+		pc = parent
+	}
+	return out
+}
